@@ -1,7 +1,7 @@
 """Table questions answered inside a pristine child process (C15 call histories).  No library call at import time."""
 import harness.compat  # noqa: F401
 from inscripta.biocantor.gene.cds_frame import CDSFrame, CDSPhase
-from inscripta.biocantor.gene.codon import Codon, TranslationTable
+from inscripta.biocantor.gene.codon import Codon, TranslationTable, START_CODONS_BY_TRANSLATION_TABLE
 from inscripta.biocantor.location.strand import Strand
 from inscripta.biocantor.sequence.alphabet import Alphabet
 from inscripta.biocantor.sequence.sequence import Sequence
@@ -40,6 +40,13 @@ def call(c):
         return Strand.from_symbol(c[1]).name
     if op == "revcomp":
         return str(Sequence(c[1], Alphabet[c[2]]).reverse_complement())
+    if op == "sweep_syn_held":  # the partition asked of the objects constructed before the history
+        out = {}
+        for k, obj in HELD.items():
+            out[k] = [sorted(str(x) for x in obj.synonymous_codons(include_self=True)), sorted(str(x) for x in obj.synonymous_codons(include_self=False)),
+                      obj.translate(), obj.is_stop_codon, obj.is_strict_codon, str(obj), obj.is_start_codon_in_specific_translation_table(TranslationTable.STANDARD),
+                      obj in START_CODONS_BY_TRANSLATION_TABLE[TranslationTable.PROKARYOTE], hash(obj) == hash(Codon(k)), obj is Codon(k)]
+        return out
     if op == "sweep_syn":  # the whole partition, asked after the history
         out = {}
         for a in "ACGT":
@@ -53,8 +60,19 @@ def call(c):
     raise ValueError("unknown op %r" % (op,))
 
 
+HELD = {}
+
+
 def zygote_entry(calls):
     out = []
+    HELD.clear()
+    if any(c[0] == "sweep_syn_held" for c in calls):
+        # the 64 strict codons are constructed FIRST and the objects are kept (as the library's own start-codon sets keep
+        # theirs); after the history the same objects are asked again
+        for a in "ACGT":
+            for b in "ACGT":
+                for d in "ACGT":
+                    HELD[a + b + d] = Codon(a + b + d)
     for c in calls:
         try:
             out.append({"v": call(c)})
